@@ -30,10 +30,13 @@ narrower `WfTop` misses exactly `S::=rhs` with a right-hand side that is not a s
 every node's range is tiled exactly by the tokens of its own production, its innermost redundant parentheses and
 its children; third invariant over the twelve parser functions, `Lemmas/RangeExact*.lean`) and the whitespace
 freedom of `parse_renders` (`parse_renders_partial`, `Lemmas/ParsePosMap.lean`).
-NOT proved: "every admissible rendering WITH REDUNDANT PARENTHESES parses, and to the rendered tree" (the
-completeness half of `Spec.Renders` of DESIGN.md beyond the canonical rendering of C05 `parse_print_fragment3`)
-lives in the harness (`harness/syntax_gen.hpp`, `render`) — compared on every generated rendering by the
-correspondence run (`c06 tree`).
+The freedom of REDUNDANT PARENTHESES is proved on the fragment `E3` of C05 (`parse_renders_parens`: every rendering
+`PR.R3` of a fragment term with admissible redundant pairs - any number around a binary set phrase, one around a
+connective / predicate in operand position - parses to the tree of the canonical rendering; `Lemmas/ParseRender*.lean`),
+with the grammar facts of the property as corollaries (`binary_left_assoc`, `product_flattening`, `quantifier_scope`)
+and the limits of the freedom on closed streams (`parens_limits`). NOT proved: the same for the forms outside `E3`
+(`{x∈S | P}`, function definitions and global declarations at the top; `parse_renders_parens_statement`) - those
+renderings are compared by the correspondence run (`harness/syntax_gen.hpp` `render`, op `c06 tree`).
 -/
 namespace CCVerif.C06
 open CCVerif.Syntax CCVerif.Generated CCVerif.Lexer CCVerif.Parser CCVerif.AstQuery CCVerif.Strings
@@ -850,7 +853,7 @@ example :
 expression form the printer writes - atoms, text functions, `+ - * ∪ ∩ \ ∆`, n-ary `×`, predicates, `¬ & ∨ ⇒ ⇔`, `ℬ`,
 enumerations, tuples, `F[…]`, `P[…]`, filters, quantifiers, `D{…}`, `R{…}`, `I{…}` with its blocks) with one more
 constructor `par` = "a pair of parentheses the printer would not write". `R3.toks` writes the REQUIRED parentheses
-exactly as the printer does (`E3.toks`) and `( … )` for every `par`; `R3.wf` admits `par` where `RSParserImpl.y` does:
+exactly as the printer does (`E3.toks`) and `( … )` for every `par`; `R3.wf` allows `par` where `RSParserImpl.y` does:
 around a `setexpr_binary` any number of times and wherever a set expression stands, around a `logic_binary` /
 `logic_predicates` ONCE and only as operand of a connective, of `¬` or as body of a quantifier (`logic_par`; so never on
 top of required parentheses, never at the top of the expression, as body of `D{…|…}`, condition of `R{…|…|…}` or block of
@@ -963,16 +966,16 @@ private def tX (n : String) : R3 := .atom .ID_GLOBAL (.text n)
 private def tEq : R3 := .pred .EQUAL tA tB
 private def tIn : R3 := .pred .IN tA (tX "X1")
 
-/-- `((a+b))*(a)`-like rendering: `((a+b))*((a×b))` with doubled redundant pairs on both sides, one of them on top of a
-required pair (4 `par`s, two of them standing in for the required pairs); it is well-formed, denotes `(a+b)*(a×b)`, and both token streams parse to the
-same tree `*(+(a,b), ×(a,b))` -/
+/-- `((a+b))*((a×b))`: doubled pairs on both sides - on the left one pair is required (the canonical rendering is
+`(a+b)*a×b`), on the right none is; 4 `par`s = 3 redundant pairs + the one standing in for the required pair. The
+rendering is well-formed, denotes `(a+b)*a×b`, and both token streams parse to the same tree `*(+(a,b), ×(a,b))` -/
 example :
     let r : R3 := .sbin .MULTIPLY (.par (.par (.sbin .PLUS tA tB))) (.par (.par (.prod2 tA tB)))
     (r.wf && r.topOK && r.pars == 4 &&
      r.toks.map (·.id) == [.PUNC_PL, .PUNC_PL, .ID_LOCAL, .PLUS, .ID_LOCAL, .PUNC_PR, .PUNC_PR, .MULTIPLY,
        .PUNC_PL, .PUNC_PL, .ID_LOCAL, .DECART, .ID_LOCAL, .PUNC_PR, .PUNC_PR] &&
      r.erase.toks.map (·.id) == [.PUNC_PL, .ID_LOCAL, .PLUS, .ID_LOCAL, .PUNC_PR, .MULTIPLY,
-       .PUNC_PL, .ID_LOCAL, .DECART, .ID_LOCAL, .PUNC_PR] &&
+       .ID_LOCAL, .DECART, .ID_LOCAL] &&
      (parseToks (r.toks ++ [PP.tk .END])).map (fun t => (t.id, t.kids.map (fun k => (k.id, k.kids.length)))) ==
        some (.MULTIPLY, [(.PLUS, 2), (.DECART, 2)]) &&
      (parseToks (r.toks ++ [PP.tk .END])).map flat == (parseToks (r.erase.toks ++ [PP.tk .END])).map flat) = true := by
